@@ -50,6 +50,8 @@ impl DebugServer {
         let lsp = self.lsp.clone();
         self.thread = Some(std::thread::spawn(move || {
             while !thread_shutdown.load(Ordering::Relaxed) {
+                #[cfg(datatrash_mos_verif)]
+                crate::verif_dbg::event("life", "\"what\":\"session_new\",\"n\":0");
                 let mut dbg = DebugSession::new(lsp.clone(), port);
                 match dbg.start() {
                     Ok(_) => (),
@@ -57,7 +59,11 @@ impl DebugServer {
                         log::debug!("Could not start DebugSession: {:?}", e);
                     }
                 }
+                #[cfg(datatrash_mos_verif)]
+                crate::verif_dbg::event("life", "\"what\":\"session_end\",\"n\":0");
             }
+            #[cfg(datatrash_mos_verif)]
+            crate::verif_dbg::event("life", "\"what\":\"dbg_thread_end\",\"n\":0");
         }));
         Ok(())
     }
@@ -804,7 +810,11 @@ impl DebugSession {
         let (debug_connection, _) = DebugConnection::tcp(&format!("127.0.0.1:{}", self.port))
             .unwrap_or_else(|e| panic!("Couldn't listen on port {}: {}", self.port, e));
         self.conn = Some(Arc::new(debug_connection));
+        #[cfg(datatrash_mos_verif)]
+        crate::verif_dbg::event("life", "\"what\":\"accepted\",\"n\":0");
         let lsp_shutdown_receiver = self.lsp.lock().unwrap().add_shutdown_handler();
+        #[cfg(datatrash_mos_verif)]
+        crate::verif_dbg::event("life", "\"what\":\"handler_registered\",\"n\":0");
 
         loop {
             let mut sel = Select::new();
@@ -829,10 +839,16 @@ impl DebugSession {
             match oper.index() {
                 0 => match oper.recv(receiver) {
                     Ok(m) => self.handle_message(m)?,
-                    Err(_) => break,
+                    Err(_) => {
+                        #[cfg(datatrash_mos_verif)]
+                        crate::verif_dbg::event("life", "\"what\":\"client_gone\",\"n\":0");
+                        break;
+                    }
                 },
                 1 => {
                     log::trace!("Shutdown received from LSP.");
+                    #[cfg(datatrash_mos_verif)]
+                    crate::verif_dbg::event("life", "\"what\":\"shutdown_signal\",\"n\":0");
                     break;
                 }
                 2 => {
